@@ -276,6 +276,7 @@ DECLARED_IRRELEVANT = {
 
 
 def task_frames(ctx):
+    """O3: continuation determinism as a static frame analysis: every molecule / driver attribute the step functions read is saved in the checkpoint and restored, derived on resume, or declared irrelevant."""
     import seqm.MolecularDynamics as M
     import seqm.NonadiabaticDynamics as N
     import seqm.basics as B
